@@ -306,6 +306,18 @@ func (g *Gen) Next() Op {
 			case k < 9 && len(sents) > 0:
 				return Op{K: "FireSentinel", A: g.pick(sents)}
 			case len(sents) > 0:
+				if g.R.Chance(1, 6) {
+					// a second Unwatch of a sentinel that was already unwatched: must be a no-op
+					var gone []int
+					for id, ref := range g.E.Nodes {
+						if ref != nil && ref.Kind == "Sentinel" && ref.Watched < 0 {
+							gone = append(gone, id)
+						}
+					}
+					if len(gone) > 0 {
+						return Op{K: "Unwatch", A: g.pick(gone)}
+					}
+				}
 				return Op{K: "Unwatch", A: g.pick(sents)}
 			}
 		}
